@@ -1,11 +1,125 @@
 import SigModel.Driver.Loop
+import SigModel.Spec.Backends
+import SigModel.Model.RWLock
 
-/-! Driver for C13 — stub (no model yet). -/
+/-! Driver for C13: static reload chains, etcd event sequences, lookups. -/
 namespace SigModel.Driver.C13
+open SigModel.Proto SigModel.Backends
+
+def optInt (tok : String) : Option Int := if tok == "x" then none else toInt? tok
+
+def parseSecs : List String → Option (List Sec)
+  | [] => some []
+  | "sec" :: id :: url :: pok :: norm :: host :: scheme :: secret :: lim :: st :: sc :: rest => do
+    let s : Sec := { id := (← dec id), url := (← dec url), parseOk := pok == "1", norm := (← dec norm),
+                     host := (← dec host), scheme := (← dec scheme), secret := (← dec secret),
+                     limit := optInt lim, stream := optInt st, screen := optInt sc }
+    let more ← parseSecs rest
+    some (s :: more)
+  | _ => none
+
+def parseCfg : List String → Option RawCfg
+  | cs :: ids :: rest =>
+    if hasPrefix "cs=" cs && hasPrefix "ids=" ids then do
+      let common ← dec (dropS 3 cs)
+      let idsv ← dec (dropS 4 ids)
+      let secs ← parseSecs rest
+      some { common := common, ids := idsv, secs := secs }
+    else none
+  | _ => none
+
+def parseOp : List String → Option Op
+  | ["mode", m] => some (.mode (m == "static"))
+  | "load" :: rest => (parseCfg rest).map .load
+  | "reload" :: rest => (parseCfg rest).map .reload
+  | ["put", key, jok, url, pok, norm, host, scheme, secret, lim, st, sc, _raw] => do
+    let key ← dec key
+    let url ← dec url
+    let norm ← dec norm
+    let host ← dec host
+    let scheme ← dec scheme
+    let secret ← dec secret
+    let lim ← toNat? lim
+    let st ← toInt? st
+    let sc ← toInt? sc
+    let valid := jok == "1" && url != "" && secret != "" && pok == "1"
+    let info : Info := { url := norm, host := host, scheme := scheme, secret := secret, limit := lim, stream := st, screen := sc }
+    some (.put key (if valid then some info else none))
+  | ["del", key] => (dec key).map .del
+  | ["probe", scheme, host, url, _raw] => do
+    some (.probe { scheme := (← dec scheme), host := (← dec host), url := (← dec url) })
+  | ["list"] => some .list
+  | ["racebegin", _] => some .raceBegin
+  | ["raceend"] => some .raceEnd
+  | _ => none
+
+def showAns : Option Ans → String
+  | none => "-"
+  | some a => s!"{enc a.id};{enc a.secret};{a.limit};{a.stream};{a.screen};{enc a.url}"
+
+def parseAns (tok : String) : Option (Option Ans) :=
+  if tok == "-" then some none else
+  match tok.splitOn ";" with
+  | [id, secret, lim, st, sc, url] => do
+    some (some { id := (← dec id), secret := (← dec secret), limit := (← toNat? lim), stream := (← toInt? st),
+                 screen := (← toInt? sc), url := (← dec url) })
+  | _ => none
+
+def parseObs : List String → Obs
+  | ["ok"] => .ok
+  | ["stuck"] => .stuck
+  | ["skipped"] => .skipped
+  | [c, f] =>
+    if hasPrefix "chain=" c && hasPrefix "fresh=" f then
+      match parseAns (dropS 6 c), parseAns (dropS 6 f) with
+      | some a, some b => .answers a b
+      | _, _ => .lists (dropS 6 c) (dropS 6 f)
+    else .other
+  | [x] => if hasPrefix "panic:" x then .panicked else if hasPrefix "inconsistent:" x then .inconsistent else .other
+  | _ => .other
+
+def insertStr (x : String) : List String → List String
+  | [] => [x]
+  | y :: ys => if x < y then x :: y :: ys else y :: insertStr x ys
+
+def showList (bs : List Backend) : String :=
+  let xs := (bs.map (fun b => enc b.id ++ "@" ++ enc b.url)).foldr insertStr []
+  if xs.isEmpty then "-" else ";".intercalate xs
 
 structure St where
-  dummy : Unit := ()
+  static : Bool := false
+  table : Table := []
+  final : List Backend := []
+  etcd : EtcdSt := {}
+  judge : Judge := {}
 
-def step (st : St) (_op _impl : List String) : St × String × String := (st, "bad-op", "na")
+def freshTable (st : St) : Table :=
+  if st.static then fresh st.final else (etcdFresh (sortKV st.etcd.infos)).table
+
+def curTable (st : St) : Table := if st.static then st.table else st.etcd.table
+
+def step (st : St) (op impl : List String) : St × String × String :=
+  match parseOp op with
+  | none => (st, "bad-op", "na")
+  | some o =>
+    let (j, v) := if impl.isEmpty then (st.judge, "na") else st.judge.observe o (parseObs impl)
+    let st := { st with judge := j }
+    match o with
+    | .mode _ => (st, "ok", v)
+    | .load c => let bs := normalise c; ({ st with static := true, table := fresh bs, final := bs }, "ok", v)
+    | .reload c =>
+      let bs := normalise c
+      match reload? st.table bs with
+      | some t => ({ st with table := t, final := bs }, "ok", v)
+      | none => ({ st with final := bs }, "panic:model", v)
+    | .put k i => ({ st with static := false, etcd := etcdPut st.etcd k i }, "ok", v)
+    | .del k => ({ st with static := false, etcd := etcdDelete st.etcd k }, "ok", v)
+    | .probe p =>
+      let a := (getBackend (curTable st) p.scheme p.host p.url).map ansOf
+      let b := (getBackend (freshTable st) p.scheme p.host p.url).map ansOf
+      (st, s!"chain={showAns a} fresh={showAns b}", v)
+    | .list => (st, s!"chain={showList (allBackends (curTable st))} fresh={showList (allBackends (freshTable st))}", v)
+    | .raceBegin => (st, "ok", v)
+    | .raceEnd => (st, "ok", v)
 
 end SigModel.Driver.C13
